@@ -292,7 +292,10 @@ fn pep_key_prec(a: &PEP440, b: &PEP440) -> Ordering {
     }
 }
 fn pep440_family(out: &mut Out) {
-    let releases: Vec<Vec<u32>> = vec![vec![1], vec![1, 0], vec![1, 0, 1], vec![1, 0, 0, 5], vec![1, 1], vec![2], vec![1, 0, 0]];
+    // incl. releases that are two or more numbers longer than another one, with a non-zero number inside the extra part and a final 0 (a padding test that
+    // looks only at the last extra number shows only there: 1.0 vs 1.0.1.0, 2 vs 2.3.0)
+    let releases: Vec<Vec<u32>> = vec![vec![1], vec![1, 0], vec![1, 0, 1], vec![1, 0, 0, 5], vec![1, 1], vec![2], vec![1, 0, 0], vec![1, 0, 1, 0], vec![2, 3, 0],
+        vec![1, 0, 0, 5, 0, 0]];
     let pres = [None, Some((PreReleaseLabel::Alpha, None)), Some((PreReleaseLabel::Alpha, Some(0))), Some((PreReleaseLabel::Alpha, Some(1))),
                 Some((PreReleaseLabel::Beta, Some(0))), Some((PreReleaseLabel::Rc, Some(2)))];
     let nums = [None, Some(None), Some(Some(0u32)), Some(Some(2u32))];
